@@ -73,6 +73,15 @@ def r1_cutoff(chk):
             else:
                 chk.decide(_derives_from(f.node, ub, "max_dist", asg), "C19.R1", key, f.where(q), f"distance_upper_bound={norm(ub)}",
                            f"the KD-tree bound is `{norm(ub)}`, not the max_dist parameter: the caller's cut-off is ignored")
+            if fname == "nearest_atom_index":
+                # the function promises THE nearest atom within max_dist: the tree search must be exact (no eps slack, Euclidean metric, k = 1)
+                ep, pk, kk = kwarg(q, "eps"), kwarg(q, "p"), kwarg(q, "k")
+                exact = (ep is None or norm(ep) in ("0", "0.0")) and (pk is None or norm(pk) in ("2", "2.0")) and (kk is None or norm(kk) == "1") and len(q.args) <= 2
+                if len(q.args) == 2:
+                    exact = exact and norm(q.args[1]) == "1"
+                chk.decide(exact, "C19.R1", f"{f.key}:{branch}:exact-nearest", f.where(q), "exact Euclidean nearest-neighbour query (k=1, no eps)",
+                           f"the KD-tree query is `{short(q, 80)}`: with eps / a non-Euclidean p / k != 1 the atom returned is not the nearest one within max_dist "
+                           "(with eps > 0 atoms between max_dist / (1 + eps) and max_dist are missed and -1 is returned)")
             if fname == "prune":
                 ep = kwarg(q, "eps")
                 chk.decide(ep is not None and norm(ep) == "eps", "C19.R1", f"{f.key}:eps-reaches-query", f.where(q), "eps=eps",
@@ -181,6 +190,33 @@ def r3_weights(chk):
         chk.decide(ok and cond, "C19.R3", key, f.where(rets[0]), f"weighted accumulation divided by the sum of the weights ({den_txt})",
                    f"the conformer average accumulates w_i * x_i but divides by `{den_txt}`, not by the sum of the weights: with weighted=True and weights that do not sum to the number of "
                    "conformers (Boltzmann weights summing to 1) the result is scaled wrongly")
+    # the indicator value of a grid point of conformer i is looked up in row i of the (n_conformers, n_atoms) table
+    fi = prog.func(f"{GB}:atomic_indicator_field")
+    tbl = fi.params()[2]
+    takes = [c for c in walk_no_nested(fi.node) if isinstance(c, ast.Call) and call_name(c) in ("np.take", "numpy.take", "np.take_along_axis")]
+    key = f"{fi.key}:indicator-looked-up-per-conformer"
+    if not takes:
+        fancy = [s_ for s_ in walk_no_nested(fi.node) if isinstance(s_, ast.Subscript) and norm(s_.value) == tbl]
+        if not fancy:
+            raise AnalysisError("atomic_indicator_field: indicator lookup not found - unknown idiom")
+        takes = []
+    okt = True
+    why = ""
+    for c in takes:
+        a0 = c.args[0] if c.args else None
+        if call_name(c) == "np.take_along_axis":
+            ax = kwarg(c, "axis") or (c.args[2] if len(c.args) > 2 else None)
+            if not (a0 is not None and norm(a0) == tbl and ax is not None and norm(ax) in ("1", "-1")):
+                okt, why = False, f"`{short(c, 70)}` does not select along the atom axis"
+            continue
+        loops_i = [l for l in walk_no_nested(fi.node) if isinstance(l, ast.For) and any(x is c for x in ast.walk(l))]
+        ivar = None
+        if loops_i:
+            t_ = loops_i[-1].target
+            ivar = norm(t_.elts[0]) if isinstance(t_, ast.Tuple) else norm(t_)
+        if not (isinstance(a0, ast.Subscript) and norm(a0.value) == tbl and ivar is not None and norm(a0.slice) == ivar and kwarg(c, "axis") is None):
+            okt, why = False, f"`{short(c, 70)}` takes from the flattened table (np.take without axis flattens): every conformer reads the values of conformer 0"
+    chk.decide(okt, "C19.R3", key, fi.where(takes[0] if takes else None), f"np.take({tbl}[i], ...) inside the conformer loop", why or "lookup not per conformer")
     ae = prog.func(f"{GB}:aeif")
     c = [x for x in walk_no_nested(ae.node) if isinstance(x, ast.Call) and call_name(x) == "atomic_indicator_field"]
     ok = len(c) == 1 and kwarg(c[0], "weighted") is not None and norm(kwarg(c[0], "weighted")) == "weighted" and norm(c[0].args[2]) == "charges" and norm(c[0].args[3]) == "vdw_radii"
